@@ -86,7 +86,8 @@ func (c19) Generate(r *sim.Rand, tier string) *sim.Scenario {
 		sc.Cfg["instances"] = 1
 	}
 	pFault := []float64{0, 0.1, 0.25}[r.Intn(3)]
-	if tier == "thorough" && r.Bool(0.5) {
+	if tier == "thorough" && r.Bool(0.5) && !long {
+		// (never on the long flavour: every fault position re-executes the history)
 		sc.Cfg["enum"] = 1
 		ncalls = r.Range(1, 16)
 	}
